@@ -2174,7 +2174,7 @@ fn process_key(pc: &PCase, pv: &PVerdict) -> String {
 pub fn run(ctx: &Ctx) -> Report {
     let limit = token_limit(ctx.thorough);
     let mut rep = Report::new(
-        "exploration",
+        "fault_enumeration",
         &format!(
             "in-process (driver::drive + Report::print_all on a fault-injecting mock file server, run in worker sub-processes): identity and EVERY single token edit (delete / duplicate / swap-with-next / replace by and insert each of {} alphabet tokens, at every token boundary of my own lexer) of every seed = every .asm file under tests/ {} + 18 generated programs{}; options grid 13 programs x budgets {{1,2,10}} x 4 optimisation-switch combinations x 11 define variants (valid / unused / malformed) x --debug-iters; every tests/driver job + 21 generated multi-file jobs (1-3 output groups) fault-free and with EVERY single fault (k-th get_handle / get_bytes / write_bytes for every k, each file missing, each file unreadable); 34 format strings (27 valid, 7 with illegal parameter values) x 12 output shapes (empty, 1 bit, partial byte, banks, labels) x file/print. Real binary: one representative per (verdict, first message) class, the smallest example of every violation family, every driver/format job, every real-file-system fault (each input missing / a directory, each output path uncreatable: parent missing / a directory). Verdict per run: exactly one of success (Ok, no error diagnostic, every requested file written, exit 0) / failure (Err, >= 1 error, nothing written unless the failure is an unwritable output, exit != 0) and never a panic / signal / exit 101. No verdict: a k-th-call fault on a file that was already read in the same run (not a permanent fault); a run that gives no result within the time limit unless every numeric literal of its input has <= 5 digits. Non-trivial = damaged input whose observable result differs from its seed's (distinct by text), every grid case, every job, every fault that fired.",
             if ctx.thorough { 48 } else { 16 },
